@@ -279,6 +279,7 @@ class Analyzer:
         self.overrides = {}  # (fn path, local) -> interval assumed for a call result (used for partitioned queries)
         self.cmp_obs = {}  # (fn, bb of switch) -> operand intervals of the deciding comparison
         self.add_obs = {}  # (fn, bb of an Overflow:Add assert) -> (interval of a, interval of b)
+        self.def_obs = {}  # (fn, local, bb) -> interval of an integer local on leaving a block that defines it (joined over contexts)
         self.incr = {}  # (fn, bb of push/extend) -> max length increment
         self.obs = {}
         self.ctx_log = {}  # fn path -> set of analysed contexts (kept across partitions; read by obligations' requirements)
@@ -668,7 +669,15 @@ class Analyzer:
             if instate[b] is None or f.blocks[b]["cleanup"]:
                 continue
             st = instate[b].clone()
-            self.transfer_block(f, b, st, ctx, record=True)
+            outs_ = self.transfer_block(f, b, st, ctx, record=True)
+            for l in self._int_defs(f).get(b, ()):
+                rng_ = ty_range(f.locals[l]["ty"])
+                for _succ, s2 in outs_ or ():
+                    if s2 is None:
+                        continue
+                    iv = s2.v.get((l, ())) or rng_
+                    prev = self.def_obs.get((f.path, l, b))
+                    self.def_obs[(f.path, l, b)] = join(prev, iv) if prev else iv
             if f.blocks[b]["term"]["k"] == "return":
                 cur = {k[1]: v for k, v in st.v.items() if k[0] == 0}
                 for i in range(1, f.arg_count + 1):
@@ -695,6 +704,21 @@ class Analyzer:
         self._reached = getattr(self, "_reached", {})
         self._reached.setdefault(f.path, set()).update(b for b in range(nb) if instate[b] is not None)
         return ret
+
+    def _int_defs(self, f):
+        """block -> integer-typed locals defined (as a whole) in it; cached on the function."""
+        d = getattr(f, "_int_defs_by_block", None)
+        if d is None:
+            d = {}
+            for l, decl in enumerate(f.locals):
+                if ty_range(decl["ty"]) is None:
+                    continue
+                for b, i, x in f.defs_of(l):
+                    pl = x["dest"] if i == "term" else x.get("place")
+                    if pl is not None and not pl["proj"] and not f.blocks[b]["cleanup"]:
+                        d.setdefault(b, set()).add(l)
+            f._int_defs_by_block = d
+        return d
 
     def _thresholds(self, f):
         ts = set()
